@@ -235,6 +235,25 @@ def check_edges_of_cell(a5, c, fails):
                 ok = True
         if not ok:
             fails.append(Failure(f'cell {hex(c)} (resolution {r}): edge {i} is not an edge (reversed, vertex for vertex) of the neighbour {hex(nb)} found beyond it', {'kind': 'edge', 'cell': c})); return
+        # near the two ends of the edge (2 % of its length from a corner), 0.5 % of a cell width outside: three cells meet there and the point
+        # belongs to one of the other two, never to this cell.  Only for r >= 8, where the bulge of an edge at that spot is far below the push.
+        if r >= 8:
+            for t in (0.02, 0.98):
+                e = G.norm((a[0] + t * (b[0] - a[0]), a[1] + t * (b[1] - a[1]), a[2] + t * (b[2] - a[2])))
+                ev = (e[0] - cen[0], e[1] - cen[1], e[2] - cen[2])
+                # outward normal of the edge in the tangent plane: component of (e - centre) orthogonal to the edge direction
+                ed = (b[0] - a[0], b[1] - a[1], b[2] - a[2])
+                el = math.sqrt(G.dot(ed, ed))
+                k = G.dot(ev, ed) / (el * el)
+                nv = (ev[0] - k * ed[0], ev[1] - k * ed[1], ev[2] - k * ed[2])
+                nl = math.sqrt(G.dot(nv, nv))
+                if nl == 0:
+                    continue
+                q = G.norm((e[0] + 0.005 * w * nv[0] / nl, e[1] + 0.005 * w * nv[1] / nl, e[2] + 0.005 * w * nv[2] / nl))
+                qlon = math.degrees(math.atan2(q[1], q[0]))
+                qlat = math.degrees(_geodetic_from_authalic(math.atan2(q[2], math.sqrt(q[0] * q[0] + q[1] * q[1]))))
+                if a5.lonlat_to_cell((qlon, qlat), r) == c:
+                    fails.append(Failure(f'cell {hex(c)} (resolution {r}): a point 0.5% of a cell width outside edge {i}, 2% of the edge length from a corner, is assigned to the cell itself', {'kind': 'edge', 'cell': c})); return
 
 def _geodetic_from_authalic(xi):
     """invert the closed-form authalic latitude by Newton iteration"""
